@@ -529,7 +529,14 @@ func main() {
 	overlay := map[string]string{}
 	stats := map[string]int{}
 	perFile := map[string]map[string]int{}
-	pkgs := []string{"layer4", "modules/l4proxy", "modules/l4tee", "modules/l4throttle", "modules/l4proxyprotocol", "modules/l4tls", "modules/l4subroute", "modules/l4echo", "modules/l4socks"}
+	pkgs := []string{"layer4"}
+	if ms, err := os.ReadDir(filepath.Join(*repo, "modules")); err == nil {
+		for _, m := range ms {
+			if m.IsDir() {
+				pkgs = append(pkgs, "modules/"+m.Name())
+			}
+		}
+	}
 	type pk struct {
 		dir, pkgname, outsub string
 		inplace              bool
